@@ -1,6 +1,8 @@
 """C08: decoders are total and bounded -- structural / abstract-interpretation clauses.
 DB.1 every read of the input through a tracked (pointer, remaining-length) pair is inside the input
-     (relational abstract interpretation over linear inequalities, sa/db.py);
+     (relational abstract interpretation over linear inequalities with machine-arithmetic wrap obligations, sa/db.py);
+DB.4 a value decoder that copies into a fixed-size object writes no more than the object holds (probe-then-copy);
+DB.5 a strchr() membership test is never reached with a character that may be 0;
 DB.3 every non-SIZE_MAX return of a DER decoder is <= the input length, and no bool constant is returned through
      the size_t error channel; the remaining length is never decremented below zero;
 DB.2 a result of a SIZE_MAX-channel function is compared (with SIZE_MAX or an expected value) before it is used
@@ -12,17 +14,32 @@ from . import ir, db
 from .ir import AnalysisBroken, strip, walk, show, int_val
 from .report import Result, COMMON_ASSUMPTIONS
 
-UNITS = ["src/core/der.c", "src/core/apdu.c"]
+UNITS = ["src/core/der.c", "src/core/apdu.c", "src/core/oid.c", "src/crypto/bpki.c", "src/crypto/btok/btok_cvc.c",
+         "src/crypto/bign/bign_params.c", "src/crypto/btok/btok_sm.c"]
+# units whose static *Dec helpers return the consumed length (the public apduCmdDec/apduRespDec return the size of the
+# decoded structure instead and have no such contract)
+CONTAINER_UNITS = ["src/crypto/bpki.c", "src/crypto/btok/btok_cvc.c", "src/crypto/bign/bign_params.c"]
 SIZE_MAX = (1 << 64) - 1
 
 
 def der_contracts(prog):
     c = {}
     for f in prog.all_funcs():
-        if f.relfile == "src/core/der.c" and "Dec" in f.name and f.ret.get("t") == "size_t" and f.body is not None:
+        if (f.relfile == "src/core/der.c" or (f.relfile in CONTAINER_UNITS and f.static and db.find_pairs(f))) and "Dec" in f.name and \
+                f.ret.get("t") == "size_t" and f.body is not None:
             c[f.name] = {"consumed"}
             if any((p.get("ct") or "").count("*") >= 2 for p in f.params):
                 c[f.name].add("region")
+            # every return is SIZE_MAX or the constant 0 (derTSEQDecStop): the valid result consumes nothing
+            vals = set()
+            for n in walk(f.body):
+                if n.get("k") == "Return" and n.get("e") is not None:
+                    e = strip(n["e"])
+                    arms = [e["x"], e["y"]] if e.get("k") == "Cond" else [e]
+                    for a in arms:
+                        vals.add(int_val(a))
+            if vals and vals <= {0, SIZE_MAX}:
+                c[f.name].add("zero")
     return c
 
 
@@ -35,7 +52,7 @@ def _analyse_one(args):
         A.run()
     except AnalysisBroken as e:
         return name, None, str(e)
-    return name, (A.reads, A.subs, A.rets), None
+    return name, (A.reads, A.subs, A.rets, A.writes), None
 
 
 def check_bounds(prog, res, tier):
@@ -45,6 +62,14 @@ def check_bounds(prog, res, tier):
     names = [f.name for f in prog.all_funcs() if f.relfile in UNITS and f.body is not None and db.find_pairs(f)]
     _analyse_one.prog = prog
     _analyse_one.contracts = contracts
+    # phase 1: what the static container decoders guarantee about the fields they fill (used at their call sites)
+    db.POSTS.clear()
+    for n in sorted(contracts):
+        f = prog.funcs.get(n)
+        if f is not None and f.relfile in CONTAINER_UNITS:
+            A = db.Analyzer(f, prog, contracts)
+            db.POSTS[n] = A.summary(A.run())
+    res.coverage["field_postconditions"] = {n: len(v) for n, v in db.POSTS.items()}
     results = []
     # fork-based pool: children inherit the loaded program
     import multiprocessing as mp
@@ -52,11 +77,27 @@ def check_bounds(prog, res, tier):
     with ctx.Pool(min(16, max(1, len(names)))) as pool:
         results = pool.map(_analyse_one, [(n,) for n in names])
     nreads = 0
+    ncaller = [0]
     for name, data, err in sorted(results):
         f = prog.funcs[name]
         if err:
             raise AnalysisBroken(err)
-        reads, subs, rets = data
+        reads, subs, rets, writes = data
+        for (line, text), v in sorted(writes.items()):
+            if all(x is None for x in v):
+                ncaller[0] += 1
+                continue
+            cap, unit = [x for x in v if x is not None][0][1:]
+            if all(x is not None and x[0] for x in v):
+                res.proved("DB.4-write-inside-output", function=name, file=f.relfile, line=line, construct=text,
+                           detail="the decoded value (%s) fits the %d-element destination on every abstract state: its length was "
+                                  "probed and tested, or is a constant/expression bounded by the tests made" % (unit, cap))
+            else:
+                res.violation("DB.4-write-inside-output", function=name, file=f.relfile, line=line,
+                              construct="%s may write more than the %d elements of its destination" % (text, cap),
+                              detail="the length this decoder copies is not bounded by the destination's size on %d of %d abstract "
+                                     "state(s): no accepted test on the probed length (or on the length argument) precedes the copy" %
+                                     (sum(1 for x in v if not (x and x[0])), len(v)))
         bad_reads = {k: v for k, v in reads.items() if not all(v)}
         nreads += len(reads)
         for (line, text), v in sorted(bad_reads.items()):
@@ -92,9 +133,71 @@ def check_bounds(prog, res, tier):
                     res.violation("DB.3-consumed-at-most-input", function=name, file=f.relfile, line=line,
                                   construct="return %s may exceed the input length" % text,
                                   detail="the returned consumed length is not provably <= the length the decoder was given")
-    res.floor("decoder functions", len(names), 20)
-    res.floor("input read sites", nreads, 60)
+    res.floor("decoder functions", len(names), 36)
+    res.floor("input read sites", nreads, 150)
+    res.floor("fixed-size destinations of value decoders", len([i for i in res.instances if i["rule"] == "DB.4-write-inside-output"]), 14)
+    res.coverage["caller_sized_destinations"] = ncaller[0]
     res.coverage["decoders"] = names
+
+
+# ---- DB.5
+class NulClient(ir.Client):
+    """state: the expressions known to be non-zero on the path (as printed by ir.show)"""
+
+    def __init__(self):
+        self.sites = {}
+
+    def init(self, func):
+        return frozenset()
+
+    @staticmethod
+    def _key(e):
+        return show(strip(e))
+
+    def assume(self, c, pol, st, env, node):
+        c = strip(c)
+        k = c.get("k")
+        if k in ("Ref", "Member", "Index") or (k == "Un" and c["op"] == "*"):
+            return st | {self._key(c)} if pol else st
+        if k == "Bin" and c["op"] in ("!=", "==") and (int_val(c["y"]) == 0 or int_val(c["x"]) == 0):
+            x = c["x"] if int_val(c["y"]) == 0 else c["y"]
+            if (c["op"] == "!=") == pol:
+                return st | {self._key(x)}
+        return st
+
+    def eval(self, e, st, env, node):
+        for c in ir.calls(e):
+            if c.get("callee") in ("strchr", "__builtin_strchr") and len(c["a"]) == 2 and strip(c["a"][0]).get("k") == "Str":
+                ok = self._key(c["a"][1]) in st
+                self.sites.setdefault((c.get("l") or node.line, show(c)[:50]), []).append(ok)
+        for l, rhs, op in ir.assigned_vars(e):
+            st = frozenset(x for x in st if not re.search(r"\b%s\b" % re.escape(l["n"]), x))
+        return st
+
+
+def check_charset(prog, res):
+    """DB.5: strchr(set, ch) finds the terminating NUL of `set`, so as a membership test it accepts ch == 0 unless the
+    path has excluded it -- a decoder of character strings would accept an embedded NUL (and what it returns re-encodes
+    to a shorter string)"""
+    n = 0
+    for f in prog.all_funcs():
+        if f.body is None or not any(c.get("callee") in ("strchr", "__builtin_strchr") for c in ir.calls(f.body)):
+            continue
+        cl = NulClient()
+        r = ir.run_paths(f, cl)
+        if r.truncated:
+            raise AnalysisBroken("path exploration truncated in %s" % f.name)
+        for (line, text), v in sorted(cl.sites.items()):
+            n += 1
+            if all(v):
+                res.proved("DB.5-charset-test-excludes-nul", function=f.name, file=f.relfile, line=line, construct=text,
+                           detail="on each of the %d path state(s) the tested character is known to be non-zero" % len(v))
+            else:
+                res.violation("DB.5-charset-test-excludes-nul", function=f.name, file=f.relfile, line=line,
+                              construct="%s with a character that may be 0" % text,
+                              detail="strchr() also finds the terminator of the set, so the character 0 passes this membership test "
+                                     "on %d of %d path state(s): a string with an embedded NUL is accepted" % (v.count(False), len(v)))
+    res.floor("character-set membership tests", n, 2)
 
 
 # ---- DB.2
@@ -274,16 +377,26 @@ def run(tier, seed=0):
     prog = ir.Program("w64")
     check_bounds(prog, res, tier)
     check_discipline(prog, res)
+    check_charset(prog, res)
     res.coverage["explanation"] = (
-        "DB.1/DB.3: relational abstract interpretation (linear inequalities with Fourier-Motzkin implication, bounded "
-        "disjunction, template join, widening) of the DER and APDU leaf decoders: the input pointer's offset K and the "
-        "region length are symbols kept in step through `p += k, c -= k`; every index / explicit-length read must satisfy "
-        "K + index < length, every DER decoder returns SIZE_MAX or a consumed length <= the input, callee contracts "
-        "(consumed <= given; derDec's value region lies inside the input) are used as facts and proved for the callees "
-        "themselves. DB.2: typestate over the whole of src/ on results of functions whose error value is SIZE_MAX.")
+        "DB.1/DB.3/DB.4: relational abstract interpretation (linear inequalities with Fourier-Motzkin implication, bounded "
+        "disjunction, template + interval-propagation join, widening) of the DER and APDU leaf decoders and of the container "
+        "parsers built on them (oid.c, bpki.c, btok_cvc.c, bign_params.c, btok_sm.c): the input pointer's offset K and the "
+        "region length are symbols kept in step through `p += k, c -= k` (also through local aliases and the derDecStep "
+        "macros); every index / explicit-length read must satisfy K + index < length, every DER decoder returns SIZE_MAX "
+        "or a consumed length <= the input; callee contracts (consumed <= given; derDec's value region lies inside the "
+        "input; derTSEQDecStop consumes nothing; field postconditions of the static container decoders) are used as facts "
+        "and proved for the callees themselves. Arithmetic is machine arithmetic: a sum/product is used as a linear fact "
+        "only when the state proves it <= SIZE_MAX and a difference only when it proves it >= 0 (this is what exposes "
+        "length fields near SIZE_MAX). DB.4: a value decoder copying into a fixed-size object (struct field, local array) "
+        "writes no more than it holds: the copied length is the constant/expression passed, or the length probed by an "
+        "earlier val=0 call at the same input position and bounded by the tests accepted since. DB.2: typestate over the "
+        "whole of src/ on results of functions whose error value is SIZE_MAX. DB.5: strchr(set, ch) used as a membership "
+        "test is reached only with ch known non-zero.")
     res.assumptions = COMMON_ASSUMPTIONS + [
-        "octets of the input are unconstrained 0..255 values; size_t arithmetic is modelled over the integers and each decrement of a remaining length must be proved not to wrap",
-        "writes to output buffers (documented sizes) and the string decoders (hex, b64, dec, oid) are not covered by DB.1",
-        "composite parsers (btok_cvc.c, bpki.c, bign_params.c, btok_sm.c) are covered by DB.2 only",
+        "octets of the input are unconstrained 0..255 values; size_t values are 64-bit machine integers (w64 configuration)",
+        "a caller-supplied (pointer, length) pair describes one object, so the length is <= PTRDIFF_MAX",
+        "destinations that are caller-supplied pointers (documented sizes) are counted (caller_sized_destinations) and not decided by DB.4; the string decoders hex, b64, dec are not covered by DB.1",
+        "a decoder that fails writes nothing to its value buffer (true of der.c: every check precedes the copy; DB.1 analyses those bodies)",
     ]
     return res
